@@ -65,7 +65,8 @@ def build_cert(level, attrs, issuer_level, serial, flip=False, fakeroot=None):
         exts.append(ext_bc(True, attrs["plc"] if attrs["plc"] >= 0 else None, crit=not flip))
     elif attrs["bc"] == "notca":
         exts.append(ext_bc(False, None, crit=not flip))
-    ku = {"sign": ["digitalSignature"], "enc": ["keyEncipherment"], "certsign": ["keyCertSign", "cRLSign"], "sign+certsign": ["digitalSignature", "keyCertSign"]}.get(attrs["ku"])
+    ku = {"sign": ["digitalSignature"], "enc": ["keyEncipherment"], "certsign": ["keyCertSign", "cRLSign"] if not flip else ["keyCertSign"], "sign+certsign": ["digitalSignature", "keyCertSign"],
+          "crlsign": ["cRLSign"] if not flip else ["digitalSignature", "cRLSign"]}.get(attrs["ku"])
     if ku:
         exts.append(ext_ku(ku, crit=not flip))
     eku = {"server": ["serverAuth"], "client": ["clientAuth"], "other": ["codeSigning"]}.get(attrs["eku"])
@@ -149,7 +150,7 @@ def body():
     # check would let through), proposed here and JUDGED BY TLC (ChainJudge evaluates Chain!SoundOf / MustOf); (b) walks simulated by
     # TLC from Chain.tla; thorough adds (c) every finished walk of the exhaustive search
     GOOD = {"bc": "absent", "plc": -1, "ku": "sign", "eku": "absent", "valid": "in", "sig": "good", "iss": True, "crit": "none"}
-    DOM = {"bc": ["absent", "ca", "notca"], "ku": ["absent", "sign", "enc", "certsign", "sign+certsign"], "eku": ["absent", "server", "client", "other"],
+    DOM = {"bc": ["absent", "ca", "notca"], "ku": ["absent", "sign", "enc", "certsign", "sign+certsign", "crlsign"], "eku": ["absent", "server", "client", "other"],
            "valid": ["in", "before", "after"], "sig": ["good", "bad", "wrongkey"], "iss": [True, False], "crit": ["none", "unknown", "unknowncrit"], "plc": [-1, 0, 1, 2, 3]}
     ABSENT = {"bc": "none", "plc": -1, "ku": "absent", "eku": "absent", "valid": "in", "sig": "good", "iss": True, "crit": "none"}
 
